@@ -30,36 +30,7 @@ def _lookup_warning(eng, st, args, kwargs):
     return [(st, VConst(("warning-class",)))]
 
 
-# the callee contract assumed above is verified here: lookup_warning is total on the Liquid error classes
-for _cls in LIQUID_ERRORS:
-    def _mk_lw(cls):
-        @contract("liquid.exceptions:lookup_warning", prop="C03", name=f"lookup_warning[{cls}]")
-        def lw(c):
-            c.call(VExcClass(cls))
-            c.raises()
-            c.ensures("a-warning-class-for-every-liquid-error-class", lambda r: z3.BoolVal(not isinstance(r.value, VNone)))
-            c.replay("code", code=REPLAY_WARN)
-    _mk_lw(_cls)
-
-
-REPLAY_WARN = r'''
-def run(m):
-    import warnings, inspect
-    import liquid.exceptions as ex
-    from liquid import Environment, Mode
-    bad = []
-    for name, cls in inspect.getmembers(ex, inspect.isclass):
-        if issubclass(cls, ex.LiquidError) and not issubclass(cls, getattr(ex, "LiquidInterrupt", ())):
-            with warnings.catch_warnings(record=True) as w:
-                warnings.simplefilter("always")
-                try:
-                    Environment(tolerance=Mode.WARN).error(cls("x", token=None))
-                    if len(w) != 1:
-                        bad.append((name, f"{len(w)} warnings"))
-                except BaseException as e:
-                    bad.append((name, type(e).__name__))
-    return {"violated": bool(bad), "observed": bad[:4], "witness": "warn-mode-error-class"}
-'''
+lookup_warning_contracts("C03", LIQUID_ERRORS)
 
 
 def _error_contract(target, mk_self, label):
